@@ -65,6 +65,27 @@ def check_present(built, w):
             "%s:wrong_result:%s" % (built.scheme_name, kind))
 
 
+def check_batch(built, kws):
+    """a batch of queries: all tokens are generated first, then searched in another order, and the first token is used a
+    second time at the end (a token is a value: it must not change when other tokens are made or when it is used)"""
+    toks = []
+    for w in kws:
+        try:
+            toks.append((w, built.scheme.TokenGen(built.key, w)))
+        except Exception as e:
+            raise stage_violation(built.scheme_name, "TokenGen", e)
+    order = list(reversed(toks)) + toks[:1]
+    for n, (w, tk) in enumerate(order):
+        try:
+            got = built.scheme.Search(built.edb, tk).get_result_list()
+        except Exception as e:
+            raise stage_violation(built.scheme_name, "Search(batch)", e)
+        if not S.result_matches(built.desc, got, built.db, w):
+            raise Violation("%s: with %d tokens generated up front, Search(token of %r)%s returned %d ids, expected %d" % (
+                built.scheme_name, len(toks), w, " (token used a second time)" if n == len(order) - 1 and len(toks) > 1 else "",
+                len(got), len(S.expected(built.desc, built.db, w))), "%s:wrong_result:batch" % built.scheme_name)
+
+
 def check_absent(built, w, tag=""):
     got = built.search(w)
     want_type = set if built.desc.result_is_set else list
